@@ -178,6 +178,22 @@ def pxItem (cfg : Proxy.Cfg) (ic : Header → Option Header) (s : Proxy.State) (
           | none => some (s1, "noreport")
           | some s2 => some (s2, if Proxy.nget s2.names n = none then "down:removed" else "down:stale")
     | _ => none
+  | some 'D' =>
+    -- the dial of heap object i finishes (addressed by index: the name may meanwhile belong to a newer object)
+    match arg.splitOn ":" with
+    | [i, r] => do
+      let i ← i.toNat?
+      match s.conns[i]? with
+      | none => some (s, "noobject")
+      | some c =>
+        match Proxy.step cfg s (.dialDone i (r == "ok")) with
+        | none => some (s, "notdialing")
+        | some s1 =>
+          if r == "ok" then some (s1, "up") else
+          match Proxy.step cfg s1 (.cmdErr i .dialer) with
+          | none => some (s1, "noreport")
+          | some s2 => some (s2, (if s2.names = s1.names then "stale:" else "removed:") ++ hexOf c.name)
+    | _ => none
   | some 'T' => do
     let n ← parseHex arg
     match Proxy.nget s.names n with
